@@ -213,7 +213,7 @@ pub fn run(p: &Params) -> Report {
         }
     }
     let mut r = Rng::new(p.seed ^ 0xC14);
-    let extra = p.n(60, 1500);
+    let extra = p.n(300, 6000);
     for _ in 0..extra {
         let n = 5 + r.usize(2);
         tuples.push((0..n).map(|_| *r.pick(&ws)).collect());
